@@ -42,7 +42,8 @@ def py_pfmt(fmt):
         return None
     out = {}
     for c in fmt:
-        d = {k: c[k] for k in ("offset", "width", "till") if c[k] is not None}
+        # "kn": the spelling the library's own format loader produces - all three keys present, None for the missing one
+        d = {k: c[k] for k in ("offset", "width", "till") if c[k] is not None or (c.get("kn") and k != "offset")}
         if c["valid"]:
             d["validations"] = [rule_text(r) for r in c["valid"]]
         d["error_message"] = c["msg"]
@@ -270,6 +271,8 @@ class C16(Prop):
             for _ in range(rng.choice([0, 0, 1, 1, 2, 3])):
                 col["valid"].append(rng.choice([["isdigit"], ["isdigit"], ["notblank"], ["rowlen", rng.choice([0, 3, 8, 12])],
                                                 ["const", True], ["const", False]]))
+            if rng.random() < 0.3:
+                col["kn"] = True
             fmt.append(col)
             cur += w + rng.choice([0, 0, 1])
         return fmt
